@@ -15,7 +15,7 @@ ASSUMPTIONS = ['click parses -s/-e/-f as decimal; -e < 0 means "no end"']
 
 def gen_case(rng, tier):
     cfg = P.gen_cfg(rng)
-    stmts = P.gen_program(rng, cfg, allow_bad=0.03, weights={'mute': 1.2})
+    stmts = P.gen_program(rng, cfg, allow_bad=0.03, weights={'mute': 1.2, 'macro': 1})
     tr_addrs = []
     # window: aim at line boundaries by replaying a tracker-free guess: use small offsets around typical addresses
     base = cfg.get('origin', 0)
